@@ -38,7 +38,7 @@ fn bad_entry(rng: &mut Rng) -> Bad {
     let note = rng.chance(1, 3);
     let n = if note { "    ; a note before the postings\n" } else { "" };
     let k = if note { 1 } else { 0 };
-    let pick = rng.below(21);
+    let pick = rng.below(22);
     let (kind, syntactic, text, stop): (&'static str, bool, String, usize) = match pick {
         0 => ("unbalanced", false, format!("2024/02/01 BADQ\n{}    Bad:A    1 USD\n    Bad:B    2 USD\n", n), 0),
         1 => ("assertion-false", false, format!("2024/02/01 BADQ\n{}    Bad:A    1 USD = 5 USD\n    Bad:B\n", n), 0),
@@ -71,6 +71,8 @@ fn bad_entry(rng: &mut Rng) -> Bad {
         18 => ("unclosed-lot-note-with-date", true, format!("2024/02/01 BADQ\n{}    Bad:A    1 AAPL [2024/01/05] (bought early\n    Bad:B\n", n), 1 + k),
         19 => ("unclosed-lot-note", true, format!("2024/02/01 BADQ\n{}    Bad:A    1 AAPL (bought early\n    Bad:B\n", n), 1 + k),
         // a directive cut off right after its keyword; the next entry may follow on the very next line
+        // parsing stops on a multi-byte character
+        21 => ("garbage-line-wide", true, format!("{}\n", rng.pick_str(&["買い物 2024/01/02", "€ 12 spent", "日付なし entry", "Übertrag 2024"])), 0),
         20 => ("directive-cut-after-keyword", true, format!("{}\n", rng.pick_str(&["account", "include", "commodity", "apply tag", "apply", "end apply"])), 0),
         17 => ("unclosed-paren-short", true, format!("2024/02/01 BADQ\n{}    B    (1\n    Bad:B\n", n), 1 + k),
         _ => ("orphan-note-wide", true, "    ; メモ orphan note after a blank line\n".to_string(), 0),
@@ -301,7 +303,7 @@ impl Check for C14 {
          metadata, apply tag, an include of a zero-byte file), separated by 1-3 (one in six: 4-8) blank lines (in one file in three the blank lines hold spaces and tabs), each file independently LF or CRLF; the deepest file then holds exactly one invalid entry followed by \
          0-2 valid ones; the including files hold the include line followed by more valid content. Invalid entry: semantic (unbalanced in 1 or 3 commodities, false \
          assertion, two unconstrained postings, zero rate, cost in the amount's commodity, alias conflicting with a used account) or syntactic (impossible date, \
-         `1,23`, unclosed `(`, unclosed `{`, unclosed lot note `(` with a `)` further down in a valid entry, a directive cut off after its keyword (with the next entry on the very next line), dangling `@`, garbage line (long and 3 bytes short), malformed last posting of a 6-10 line entry, orphan posting / orphan multi-byte note after a blank line), optionally with a note line (a rejected transaction may also end in inline or own-line metadata followed by blank lines and a comment) \
+         `1,23`, unclosed `(`, unclosed `{`, unclosed lot note `(` with a `)` further down in a valid entry, a directive cut off after its keyword (with the next entry on the very next line), dangling `@`, garbage line (long, 3 bytes short, and starting with a multi-byte character), malformed last posting of a 6-10 line entry, orphan posting / orphan multi-byte note after a blank line), optionally with a note line (a rejected transaction may also end in inline or own-line metadata followed by blank lines and a comment) \
          before the postings. Ground truth: the file, the entry's first and last line, and for syntax errors the line where parsing must stop. Oracle on the rendered \
          error chain (Display of the error and its sources; CLI stderr with ANSI stripped): the ledger is rejected; every file named as location (`--> f:l:c`, \
          `failed to parse file f`) is the file holding the entry; at least one line number is shown; every gutter number and the `-->` line lie in [first, last] \
